@@ -14,6 +14,7 @@ import json
 import multiprocessing as mp
 import os
 import random
+import signal
 import sys
 import time
 import traceback
@@ -63,6 +64,10 @@ def classify(viol: dict[str, Any], findings: list[dict[str, Any]]) -> int | None
     return None
 
 
+class ShardTimeout(BaseException):
+    """The whole shard hung: a harness failure (per-case hangs are the drivers' business)."""
+
+
 # ---------------------------------------------------------------------------
 _CHECK: Check | None = None
 _TIER = "quick"
@@ -77,11 +82,21 @@ def _init_worker(pid: str, tier: str) -> None:
 def _run_one(arg: tuple[int, Any]) -> tuple[int, Any]:
     idx, shard = arg
     assert _CHECK is not None
+    limit = _CHECK.shard_timeout(_TIER)
+
+    def _on_alarm(signum: int, frame: Any) -> None:
+        raise ShardTimeout(f"shard exceeded its watchdog of {limit}s")
+
+    old = signal.signal(signal.SIGALRM, _on_alarm)
+    signal.alarm(limit)
     try:
         res = _CHECK.run_shard(shard, _TIER)
         return idx, res
     except BaseException:  # noqa: BLE001  harness failure must be loud
         return idx, ("HARNESS-ERROR", traceback.format_exc(), repr(shard)[:500])
+    finally:
+        signal.alarm(0)
+        signal.signal(signal.SIGALRM, old)
 
 
 def merge(results: list[Result]) -> Result:
